@@ -1,11 +1,33 @@
 import Pose.Wire
 import Pose.Driver.Lie
+import Pose.Model.ExpGlue
 /-! Driver ops for C01: `Exp` of an algebra element followed by `tensor()` and `matrix()` in one reply
 (storage of the group element, then the matrix row-major), so the transcendentals are evaluated once. -/
 namespace PP.Driver
 open PP Wire
 
+/-- `c01.glue <ltype> <dtype> <rank> <shape…> <data…>`: the public path `pp.Exp(pp.LieTensor(data, ltype))` followed by
+`.tensor()` and `.matrix()` with the model's own dispatch, shape handling and dtype-dependent eps.
+reply `ok <ltype> <rank> <shape…> <n> <data…> <mrank> <mshape…> <m> <mdata…>` or `err lastDim|noExp|numel` -/
+def glueHandler : Handler := fun ts =>
+  match ts with
+  | ltn :: dtn :: rk :: rest => do
+    let lt ← (LType.ofName ltn).elim (.error "ltype") .ok
+    let dt ← (DType.ofName dtn).elim (.error "dtype") .ok
+    let r ← nat rk
+    let (shp, dat) ← take r rest
+    let shape ← nats shp
+    let data ← nums dat
+    match ppExp (α := B) lt dt shape data with
+    | .error e => .error e.name
+    | .ok X =>
+      let (ms, md) := X.matrix dt
+      .ok (" ".intercalate [X.ltype.name, toString X.shape.length, fmtNats X.shape, toString X.data.length, fmt X.data,
+            toString ms.length, fmtNats ms, toString md.length, fmt md])
+  | _ => .error "arity"
+
 def opsC01 : List (String × Handler) := [
+  ("c01.glue", glueHandler),
   ("c01.so3", withEps 3 fun e l => let X := so3Exp e (v3 l); X.toList ++ (SO3matrix X).toList),
   ("c01.se3", withEps 6 fun e l => let X := se3Exp e (tose3 l); X.toList ++ (SE3matrix X).flat),
   ("c01.rxso3", withEps 4 fun e l => let X := rxso3Exp e (torx l); X.toList ++ (RxSO3matrix X).flat),
